@@ -70,8 +70,160 @@ example : C13a.exComma.valid = true ∧ (∀ q, q ∈ exD1.Q → ',' ∉ q.toLis
 example : Check.productCheck .union C13a.exComma exD1 ((C13a.exComma.product exD1 .union).mapStates productName) 2 =
       some false := by decide
 
+/-! ### reverse -/
+
+/-- reverse exercise: `dfa_reverse(D)` (fresh initial state `fresh_state(D.Q, 'q')`, ε-label `ε`) passes
+    `check_dfa_reverse`, for every pop order of the NFA enumeration -/
+theorem own_reverse_ok (D : DFA String String) (hv : D.valid = true) (hk : (D.delta.map (·.1)).Nodup) (s : Sched) (len : Nat)
+    (he : "ε" ∉ D.Sigma) :
+    Check.reverseCheck D (D.reverse (freshState D.Q "q") "ε") s len = .ok true :=
+  C13a.reverseCheck_self D hv hk _ _ (freshState_fresh D.Q "q") he s len
+
+example : C14b.exD.valid = true ∧ (C14b.exD.delta.map (·.1)).Nodup ∧ "ε" ∉ C14b.exD.Sigma ∧
+    freshState C14b.exD.Q "q" = "q1" ∧
+    Check.reverseCheck C14b.exD (C14b.exD.reverse (freshState C14b.exD.Q "q") "ε") [1, 3, 4] 3 = .ok true :=
+  ⟨by decide, by decide, by decide, by decide, rfl⟩
+
+/-! ### minimal DFA -/
+
+/-- minimal-DFA exercise: the quotient answer (the checker's own reference) passes -/
+theorem own_minimal_quotient_ok (D : DFA String String) (hv : D.valid = true) (hQ : D.Q.Nodup) (len : Nat)
+    (M : DFA (List String) String) (hM : D.quotient = .ok M)
+    (hinj : ∀ B C, B ∈ M.Q → C ∈ M.Q → printStateSet B = printStateSet C → B = C) :
+    Check.minimalCheck D (M.mapStates printStateSet) len = .ok true := by
+  obtain ⟨M0, hM0, hMv, hMS, hMN, hML, _⟩ := quotient_spec D hv hQ
+  rw [hM] at hM0
+  cases hM0
+  exact C13a.minimalCheck_of_nerode D hv hQ len M hMv hMS hMN hML hinj
+
+example : exC04b.valid = true ∧ exC04b.Q.Nodup ∧ exC04b.quotient = .ok C13a.exQuot ∧
+    (∀ B C, B ∈ C13a.exQuot.Q → C ∈ C13a.exQuot.Q → printStateSet B = printStateSet C → B = C) ∧
+    (C13a.exQuot.mapStates printStateSet).Q = ["{3}", "{0}", "{1,2}"] ∧
+    Check.minimalCheck exC04b (C13a.exQuot.mapStates printStateSet) 4 = .ok true := by
+  refine ⟨by decide, by decide, by rfl, C13a.ex_names_inj _ (by decide), ?_, ?_⟩ <;> rw [C13a.exQuot_named] <;> rfl
+
+/-- … and so does the Hopcroft answer, for every pop order -/
+theorem own_minimal_hopcroft_ok (D : DFA String String) (hv : D.valid = true) (hQ : D.Q.Nodup) (len : Nat) (s : Sched)
+    (M : DFA (List String) String) (hM : D.hopcroft s = .ok M)
+    (hinj : ∀ B C, B ∈ M.Q → C ∈ M.Q → printStateSet B = printStateSet C → B = C) :
+    Check.minimalCheck D (M.mapStates printStateSet) len = .ok true := by
+  obtain ⟨hMv, hMS, hMN, hML, _⟩ := hopcroft_spec D hv hQ s M hM
+  exact C13a.minimalCheck_of_nerode D hv hQ len M hMv hMS hMN hML hinj
+
+example : exC04b.hopcroft [2, 0, 1] = .ok C13a.exHop ∧
+    (∀ B C, B ∈ C13a.exHop.Q → C ∈ C13a.exHop.Q → printStateSet B = printStateSet C → B = C) ∧
+    Check.minimalCheck exC04b (C13a.exHop.mapStates printStateSet) 4 = .ok true := by
+  refine ⟨by rfl, C13a.ex_names_inj _ (by decide), ?_⟩
+  rw [C13a.exHop_named]; rfl
+
+/-! ### Chomsky phases -/
+
+/-- the statement as first requested (without `hd0`, `hd1`) -/
+def own_chomsky_ok_stmt : Prop :=
+  ∀ (G : CFG) (phase : Nat) (start : String) (len : Nat),
+    G.valid = true → G.S ∈ G.V → CFG.AliasOK G →
+    (∀ a, a ∈ G.Sigma → a ∉ G.V ∧ a ≠ CFG.freshVariable G.V start) → start ∉ G.V →
+    Check.chomskyCheck G (G.applyChomsky phase start) phase start len = true
+
+/-- … is FALSE in the model: `X → A | bbb` with the upper-case TERMINAL `A`, phase 4, start variable `T`.
+    Phase 4 names the new variable for `bb` `A`; `cfg_words_up_to_n` normalises the answer key again and its
+    unit-rule phase (`rhs[0] in V`, a comparison of strings) takes the terminal of `T → A` for that variable, so the
+    enumeration of the answer key contains `bb` and the library's own answer key is rejected. -/
+theorem own_chomsky_ok_stmt_false : ¬ own_chomsky_ok_stmt := by
+  intro h
+  have := h C13a.cexG 4 "T" 3 C13a.cexG_valid C13a.cexG_S C13a.cexG_alias C13a.cexG_hd (by decide)
+  rw [C13a.cexG_rejected] at this
+  cases this
+
+/-- Chomsky exercise: the answer key of every phase passes.  Two hypotheses had to be added to the requested
+    statement (see `own_chomsky_ok_stmt_false`); both say that terminals are not mistaken for variables when
+    `cfg_words_up_to_n` normalises a grammar that is not in CNF:
+    `hd0` — for the input grammar (start hint `"S"` of `cfg_to_chomsky`),
+    `hd1` — for the answer key of phases 0–4 (the answer key of phase 5 is in CNF and is enumerated as it is).
+    Both hold whenever no terminal is an upper-case letter / a name `fresh_variable` can produce; for phases ≤ 3
+    `hd1` follows from a condition on the input (`own_chomsky_ok_le3`). -/
+theorem own_chomsky_ok (G : CFG) (phase : Nat) (start : String) (len : Nat)
+    (hv : G.valid = true) (hS : G.S ∈ G.V) (ha : CFG.AliasOK G)
+    (hd : ∀ a, a ∈ G.Sigma → a ∉ G.V ∧ a ≠ CFG.freshVariable G.V start)
+    (hstart : start ∉ G.V)
+    (hd0 : ∀ a, a ∈ G.Sigma → a ≠ CFG.freshVariable G.V "S")
+    (hd1 : phase ≤ 4 → ∀ a, a ∈ G.Sigma →
+      a ∉ (G.applyChomsky phase start).V ∧ a ≠ CFG.freshVariable (G.applyChomsky phase start).V "S") :
+    Check.chomskyCheck G (G.applyChomsky phase start) phase start len = true :=
+  C13a.chomskyCheck_self G phase start len hv hS ha hd hstart hd0 hd1
+
+/-- `S → aSb | ε`, new start variable `T`: the hypotheses hold and the answer key of EVERY phase passes, for every
+    length bound -/
+example (phase len : Nat) : C13a.exS.valid = true ∧ C13a.exS.S ∈ C13a.exS.V ∧ CFG.AliasOK C13a.exS ∧
+    (∀ a, a ∈ C13a.exS.Sigma → a ∉ C13a.exS.V ∧ a ≠ CFG.freshVariable C13a.exS.V "T") ∧ "T" ∉ C13a.exS.V ∧
+    (∀ a, a ∈ C13a.exS.Sigma → a ≠ CFG.freshVariable C13a.exS.V "S") ∧
+    (phase ≤ 4 → ∀ a, a ∈ C13a.exS.Sigma → a ∉ (C13a.exS.applyChomsky phase "T").V ∧
+      a ≠ CFG.freshVariable (C13a.exS.applyChomsky phase "T").V "S") ∧
+    Check.chomskyCheck C13a.exS (C13a.exS.applyChomsky phase "T") phase "T" len = true :=
+  ⟨C13a.exS_valid, C13a.exS_S, C13a.exS_alias, C13a.exS_hd, by decide, C13a.exS_hd0, C13a.exS_hd1 phase,
+    own_chomsky_ok C13a.exS phase "T" len C13a.exS_valid C13a.exS_S C13a.exS_alias C13a.exS_hd (by decide)
+      C13a.exS_hd0 (C13a.exS_hd1 phase)⟩
+
+/-- the answer key of phase 3 for `S → aSb | ε`, and the verdict evaluated directly -/
+example : (C13a.exS.applyChomsky 3 "T").R =
+      [⟨"T", 4, []⟩, ⟨"S", 5, [.t "a", .v "S", .t "b"]⟩, ⟨"S", 6, [.t "a", .t "b"]⟩,
+       ⟨"T", 5, [.t "a", .v "S", .t "b"]⟩, ⟨"T", 6, [.t "a", .t "b"]⟩] ∧
+    Check.chomskyCheck C13a.exS (C13a.exS.applyChomsky 3 "T") 3 "T" 4 = true := by decide +kernel
+
+/-- the counterexample grammar satisfies every hypothesis but `hd1` -/
+example : C13a.cexG.valid = true ∧ C13a.cexG.S ∈ C13a.cexG.V ∧ CFG.AliasOK C13a.cexG ∧
+    (∀ a, a ∈ C13a.cexG.Sigma → a ∉ C13a.cexG.V ∧ a ≠ CFG.freshVariable C13a.cexG.V "T") ∧ "T" ∉ C13a.cexG.V ∧
+    (∀ a, a ∈ C13a.cexG.Sigma → a ≠ CFG.freshVariable C13a.cexG.V "S") ∧
+    "A" ∈ C13a.cexG.Sigma ∧ "A" ∈ (C13a.cexG.applyChomsky 4 "T").V ∧
+    Check.chomskyCheck C13a.cexG (C13a.cexG.applyChomsky 4 "T") 4 "T" 3 = false :=
+  ⟨C13a.cexG_valid, C13a.cexG_S, C13a.cexG_alias, C13a.cexG_hd, by decide, C13a.cexG_hd0, by decide,
+    by rw [C13a.cexG_key.1]; decide, C13a.cexG_rejected⟩
+
+/-- the structural part (new start variable, no ε-rules except for it, no unit rules, right-hand sides of length
+    ≤ 2, CNF shape — as far as the phase requires) holds under the originally requested hypotheses alone -/
+theorem own_chomsky_struct_ok (G : CFG) (phase : Nat) (start : String)
+    (hv : G.valid = true) (hS : G.S ∈ G.V) (ha : CFG.AliasOK G)
+    (hd : ∀ a, a ∈ G.Sigma → a ∉ G.V ∧ a ≠ CFG.freshVariable G.V start)
+    (hstart : start ∉ G.V) :
+    C13a.chomskyStruct (G.applyChomsky phase start) phase start = true ∧
+    ∀ len, Check.chomskyCheck G (G.applyChomsky phase start) phase start len =
+      (compareLanguages ((G.applyChomsky phase start).wordsUpTo len) (G.wordsUpTo len)).isNone := by
+  have h := C13a.chomskyStruct_self G phase start hv hS ha hd hstart
+  refine ⟨h, fun len => ?_⟩
+  rw [C13a.chomskyCheck_eq, h, Bool.and_true]
+
+example : C13a.chomskyStruct (C13a.cexG.applyChomsky 4 "T") 4 "T" = true :=
+  (own_chomsky_struct_ok C13a.cexG 4 "T" C13a.cexG_valid C13a.cexG_S C13a.cexG_alias C13a.cexG_hd (by decide)).1
+
+/-- phases 0–3 introduce no variable but the new start variable, so the extra hypotheses can be stated on the input:
+    no terminal is the start variable that `cfg_to_chomsky` would add to `G` or to `G` extended by `start` -/
+theorem own_chomsky_ok_le3 (G : CFG) (phase : Nat) (start : String) (len : Nat) (h3 : phase ≤ 3)
+    (hv : G.valid = true) (hS : G.S ∈ G.V) (ha : CFG.AliasOK G)
+    (hd : ∀ a, a ∈ G.Sigma → a ∉ G.V ∧ a ≠ CFG.freshVariable G.V start)
+    (hstart : start ∉ G.V)
+    (hd0 : ∀ a, a ∈ G.Sigma → a ≠ CFG.freshVariable G.V "S")
+    (hd0' : ∀ a, a ∈ G.Sigma → a ≠ CFG.freshVariable (G.V ++ [start]) "S") :
+    Check.chomskyCheck G (G.applyChomsky phase start) phase start len = true := by
+  apply own_chomsky_ok G phase start len hv hS ha hd hstart hd0
+  intro _
+  apply C13a.hd1_of_le3 G phase start h3 hd hd0
+  rw [C13a.freshVariable_of_not_mem hstart]
+  exact hd0'
+
+example (len : Nat) : (∀ a, a ∈ C13a.exS.Sigma → a ≠ CFG.freshVariable (C13a.exS.V ++ ["T"]) "S") ∧
+    Check.chomskyCheck C13a.exS (C13a.exS.applyChomsky 2 "T") 2 "T" len = true :=
+  ⟨by decide, own_chomsky_ok_le3 C13a.exS 2 "T" len (by decide) C13a.exS_valid C13a.exS_S C13a.exS_alias
+    C13a.exS_hd (by decide) C13a.exS_hd0 (by decide)⟩
+
 #print axioms own_complement_ok
 #print axioms own_language_ok
 #print axioms own_product_ok
+#print axioms own_reverse_ok
+#print axioms own_minimal_quotient_ok
+#print axioms own_minimal_hopcroft_ok
+#print axioms own_chomsky_ok_stmt_false
+#print axioms own_chomsky_ok
+#print axioms own_chomsky_struct_ok
+#print axioms own_chomsky_ok_le3
 
 end Gamba
